@@ -29,8 +29,54 @@ from pyvc.verify import Maker, p_ext, p_opt, p_str
 
 from contracts import c03_exec as X
 from contracts import c16_exec as M
-from contracts.c03_exec import B, Conj, I, JOIN, K, S, STRIP, fld, fun
+from contracts.c03_exec import B, I, JOIN, K, S, STRIP, fld, fun
 from contracts.c16_exec import MBOX, EML, MSG, DT, MIME, VOpt, VDyn, opt_parts, absent, seq_of, built_list
+
+Conj = M.ConjA      # labelled conjunctions of this pack may contain M.Unk clauses
+_SHAPE_ERRORS = (M.ShapeUnknown, Unsupported, AttributeError, TypeError, KeyError, IndexError, ValueError, z3.Z3Exception)
+
+
+def guard(c):
+    """Clauses of a contract read the values the real code built.  When a (changed) body builds something a clause cannot
+    read, that is an unrecognised shape, not a counterexample and not a crash: a postcondition becomes `unknown`
+    (UNKNOWN-SHAPE: the native replayer decides), at a call site it is simply not assumed; an invariant / exceptional
+    clause makes the function leave the verified subset (again `unknown` + replay)."""
+    if getattr(c, "_guarded", False):
+        return c
+    c._guarded = True
+
+    def post(fn):
+        def g(cx):
+            try:
+                return fn(cx)
+            except _SHAPE_ERRORS as e:
+                if cx.ex.contract is c:
+                    cx.note = f"UNKNOWN-SHAPE {type(e).__name__}: {e}"[:240]
+                    return z3.BoolVal(False)
+                return z3.BoolVal(True)
+        return g
+
+    def hard(fn, what):
+        def g(*a, **k):
+            try:
+                return fn(*a, **k)
+            except Unsupported:
+                raise
+            except _SHAPE_ERRORS as e:
+                raise Unsupported(f"{what} of {c.target.split('::')[-1]} cannot be stated on this shape: {type(e).__name__}: {e}"[:300])
+        return g
+
+    c.ensures = [(lab, post(fn)) for (lab, fn) in c.ensures]
+    for spec in c.loops.values():
+        if spec.inv is not None:
+            spec.inv = hard(spec.inv, "loop invariant")
+    for r in c.raises:
+        if r.when is not None:
+            r.when = hard(r.when, "exceptional postcondition")
+    for attr in ("requires", "hyps", "returns", "result_maker"):
+        if getattr(c, attr) is not None:
+            setattr(c, attr, hard(getattr(c, attr), attr))
+    return c
 
 EXECUTOR = M.MailExecutor
 EXECUTOR_KW = {}
@@ -110,7 +156,7 @@ def split_contract():
         st.assume(M.match_axioms(P, D))
         return VSeq(sq.length, sq.elem, "str", tag=("pieces", D))
 
-    return FnContract(
+    return guard(FnContract(
         target=f"{MBOX}::_split_mbox_messages",
         params=[("data", p_str())],
         hyps=hyp,
@@ -121,7 +167,7 @@ def split_contract():
         loops={0: LoopSpec(inv=inv, label="separators")},
         result_maker=result_maker,
         note="result == [strip_eol(data[e_k : s_{k+1} | len(data)]) for k in range(n) if non-empty], for the match list [(s_k, e_k)] of the separator regex",
-    )
+    ))
 
 
 # ================================================= (b) headers: decode_header_value, addresses ==
@@ -157,7 +203,7 @@ def dhv_contract():
         miss = z3.Or(none, z3.Length(s) == 0)
         r = c.result
         if not isinstance(r, VStr):
-            return z3.BoolVal(False)
+            raise M.ShapeUnknown("value built by the code has a shape this clause does not read")
         j = join_parts(r.t)
         if j is None:
             return z3.And(miss, r.t == M.EMPTY)
@@ -360,13 +406,13 @@ def addr_list_matches(st, v, hv):
     miss = z3.Or(none, z3.Length(s) == 0)
     r = seq_of(st, v, ("obj", "EmailAddress"))
     if r is None:
-        return z3.BoolVal(False)
+        raise M.ShapeUnknown("value built by the code has a shape this clause does not read")
     n, el = r
 
     def body(k):
         e = el(k)
         if isinstance(e, VUnk):
-            return z3.BoolVal(False)
+            raise M.ShapeUnknown("value built by the code has a shape this clause does not read")
         nm, ad = addr_fields(st, e)
         return z3.And(nm == M.AL_NAME(s, k), ad == M.AL_ADDR(s, k))
     return z3.And(n == z3.If(miss, 0, M.AL_N(s)), forall(n, body, "k!alm"))
@@ -407,7 +453,7 @@ def pem_contract():
         def e(c):
             v = getter(c)
             if not isinstance(v, VStr):
-                return z3.BoolVal(False)
+                raise M.ShapeUnknown("value built by the code has a shape this clause does not read")
             return v.t == pem_spec(m_of(c))[key]
         return e
 
@@ -424,14 +470,14 @@ def pem_contract():
     def e_atts(c):
         r = seq_of(c.st, data(c)["attachments"], ("obj", "EmailAttachment"))
         if r is None:
-            return z3.BoolVal(False)
+            raise M.ShapeUnknown("value built by the code has a shape this clause does not read")
         return r[0] == M.ATT_N(m_of(c))
 
     def e_no_invented(c):
         # the part of "every attachment" that holds outside the recorded finding F21-mbox-no-attachments
         r = seq_of(c.st, data(c)["attachments"], ("obj", "EmailAttachment"))
         if r is None:
-            return z3.BoolVal(False)
+            raise M.ShapeUnknown("value built by the code has a shape this clause does not read")
         return z3.Implies(M.ATT_N(m_of(c)) == 0, r[0] == 0)
 
     def result_maker(ex, st, ctx):
@@ -559,7 +605,7 @@ def att_fields(st, v):
 def att_ok(st, v, a):
     """The EmailAttachment v is attachment dict a: name, type, exact bytes, support flag."""
     if isinstance(v, VUnk):
-        return z3.BoolVal(False)
+        raise M.ShapeUnknown("value built by the code has a shape this clause does not read")
     fn, mt, content, flag = att_fields(st, v)
     mime = or_default(a, "mail_content_type", "application/octet-stream")
     return z3.And(fn == or_default(a, "filename", "attachment"), mt == mime, content == M.ATT_BYTES(a), flag == sup_mime(mime))
@@ -582,7 +628,7 @@ def mail_addr_list_matches(st, v, mail, field):
     def body(k):
         e = el(k)
         if isinstance(e, VUnk):
-            return z3.BoolVal(False)
+            raise M.ShapeUnknown("value built by the code has a shape this clause does not read")
         nm, ad = addr_fields(st, e)
         return z3.And(keep(k) == (z3.Length(M.ML_ADDR(mail, f, k)) > 0), nm == M.ML_NAME(mail, f, k), ad == M.ML_ADDR(mail, f, k))
     return z3.And(n == n_spec, forall(n_spec, body, "k!mlm"))
@@ -624,7 +670,7 @@ def eml_contract():
         def e(c):
             v = M._path_get(c.st, c.result, path)
             if not isinstance(v, VStr):
-                return z3.BoolVal(False)
+                raise M.ShapeUnknown("value built by the code has a shape this clause does not read")
             return v.t == eml_spec(mail_of(c))[key]
         return e
 
@@ -639,8 +685,7 @@ def eml_contract():
                 return z3.BoolVal(True)       # call site: nothing is said about the lists beyond the contract's result object
             r = mail_addr_list_matches(c.st, data(c)[field], mail_of(c), EML_LISTS[field])
             if r is None:
-                c.note = "list not built by a comprehension over the mail's entries: shape not recognised"
-                return z3.BoolVal(False)
+                raise M.ShapeUnknown("list not built by a comprehension over the mail's entries")
             return r
         return e
 
@@ -650,7 +695,7 @@ def eml_contract():
         mail = mail_of(c)
         r = seq_of(c.st, data(c)["attachments"], ("obj", "EmailAttachment"))
         if r is None:
-            return z3.BoolVal(False)
+            raise M.ShapeUnknown("value built by the code has a shape this clause does not read")
         n, el = r
         return z3.And(n == M.MA_N(mail), forall(n, lambda k: att_ok(c.st, el(k), M.MA_AT(mail, k)), "k!ea"))
 
@@ -847,7 +892,8 @@ def isa_contract():
             return Conj([("dispatch", z3.BoolVal(True)), ("stream", z3.BoolVal(True)), cache])
         att = lc.seq.elem(z3.simplify(lc.i - 1)).t
         fn, mt, data, flag = att_terms(att)
-        bad = Conj([("dispatch", z3.BoolVal(False)), ("stream", z3.BoolVal(False)), cache])
+        bad = Conj([("dispatch", M.Unk("not exactly one extractor call with (stream, name) in this iteration")),
+                    ("stream", M.Unk("not exactly one extractor call with (stream, name) in this iteration")), cache])
         if len(disp) != 1:
             return bad
         (f, args, pos) = disp[0]
@@ -857,8 +903,9 @@ def isa_contract():
         goals = [flag, args[0].t == data, args[1].t == fn, defined, f.items[0].t == mod, f.items[1].t == fnn]
         at_call = [pv for (a, pv) in pos if a is args[0]]
         after = st.ghost.get(("pos", args[0].t.get_id()))
-        stream = [at_call[0] == 0 if at_call and at_call[0] is not None else z3.BoolVal(False),
-                  after == 0 if after is not None else z3.BoolVal(False)]
+        if not (at_call and at_call[0] is not None and after is not None):
+            return Conj([("dispatch", z3.And(goals)), ("stream", M.Unk("stream position not tracked on this path")), cache])
+        stream = [at_call[0] == 0, after == 0]
         return Conj([("dispatch", z3.And(goals)), ("stream", z3.And(stream)), cache])
 
     def raised_by_extractor(c):
@@ -990,12 +1037,14 @@ def read_msg_contract():
     def e_subject(c):
         v = f(("subject",))(c)
         none, s_ = prop(c, "subject")
-        return z3.And(z3.Not(none), v.t == STRIP(s_)) if isinstance(v, VStr) else z3.BoolVal(False)
+        if not isinstance(v, VStr):
+            raise M.ShapeUnknown("subject is not a str value")
+        return z3.And(z3.Not(none), v.t == STRIP(s_))
 
     def e_mid(c):
         v = f(("metadata", "message_id"))(c)
         if v is None:
-            return z3.BoolVal(False)
+            raise M.ShapeUnknown("value built by the code has a shape this clause does not read")
         none, s_ = prop(c, "message_id")
         n2, t2 = opt_parts(v)
         return z3.And(n2 == none, z3.Implies(z3.Not(none), t2 == s_))
@@ -1003,7 +1052,9 @@ def read_msg_contract():
     def e_date(c):
         v = f(("metadata", "date"))(c)
         none, s_ = prop(c, "sent_date")
-        return z3.And(z3.Not(none), M.DATE_OK(s_), v.t == M.ISO(M.PDATE(s_))) if isinstance(v, VStr) else z3.BoolVal(False)
+        if not isinstance(v, VStr):
+            raise M.ShapeUnknown("date is not a str value")
+        return z3.And(z3.Not(none), M.DATE_OK(s_), v.t == M.ISO(M.PDATE(s_)))
 
     def e_rcpt(field, pname):
         def e(c):
@@ -1011,14 +1062,14 @@ def read_msg_contract():
             tag = M.seq_tag(c.st, v) if v is not None else None
             want = M.MX_PROP(mx(c), z3.StringVal(pname))
             if not (isinstance(tag, tuple) and tag[0] == "pmr"):
-                return z3.BoolVal(False)
+                raise M.ShapeUnknown("value built by the code has a shape this clause does not read")
             return tag[1] == want
         return e
 
     def e_from(c):
         v = f(("from_email",))(c)
         if v is None:
-            return z3.BoolVal(False)
+            raise M.ShapeUnknown("value built by the code has a shape this clause does not read")
         nm, ad = addr_fields(c.st, v)
         sp = M.MX_PROP(mx(c), z3.StringVal("sender"))
         first = PMR_AT(sp, 0)
@@ -1030,14 +1081,14 @@ def read_msg_contract():
         none, s_ = prop(c, "body")
         raw = z3.If(z3.Or(none, z3.Length(s_) == 0), M.EMPTY, s_)
         if not (isinstance(bp, VStr) and isinstance(bh, VStr)):
-            return z3.BoolVal(False)
+            raise M.ShapeUnknown("value built by the code has a shape this clause does not read")
         return z3.And(bp.t == STRIP(z3.If(LLH(raw), H2T(raw), raw)), bh.t == z3.If(LLH(raw), raw, M.EMPTY))
 
     def e_atts(c):
         v = f(("attachments",))(c)
         tag = M.seq_tag(c.st, v) if v is not None else None
         if not (isinstance(tag, tuple) and tag[0] == "msgatt"):
-            return z3.BoolVal(False)
+            raise M.ShapeUnknown("value built by the code has a shape this clause does not read")
         return tag[1] == M.CONTENT(c.args["file_like"].t)
 
     return FnContract(
@@ -1074,7 +1125,7 @@ def contracts(reg):
     out.append(dhv_contract())
     out.append(pea_contract())
     out.append(peas_contract())
-    return out
+    return [guard(c) if c.target.split('::')[0] in (MBOX, EML, MSG, DT) else c for c in out]
 
 
 # ================================================================= ground / dataflow ==
